@@ -42,6 +42,8 @@ fn assumptions(_ctx: &Ctx) -> Vec<String> {
 }
 
 fn main() {
+    // a runaway execution must die alone (see mc_core::limit_address_space)
+    mc_core::limit_address_space(2 << 30);
     main_entry(Engine {
         name: "deque_mc",
         level,
